@@ -53,9 +53,19 @@ pub fn gen_committee(ch: &mut Choices, nmax: usize) -> CommitteeSpec {
         3 | 4 => (0..n).map(|_| ch.range(1, 4)).collect(),
         _ => (0..n).map(|_| ch.range(1, 60)).collect(),
     };
+    // leader eligibility has nothing to do with the weight of a signer set: half of the committees have members that
+    // are not eligible (at least one member is)
+    let mut leaders = vec![true; n];
+    if ch.bool() {
+        for l in leaders.iter_mut() {
+            *l = ch.bool();
+        }
+        let keep = ch.below(n);
+        leaders[keep] = true;
+    }
     CommitteeSpec {
         weights,
-        leaders: vec![true; n],
+        leaders,
         weighted: false,
         frequency: 1,
         key_offset: ch.below(POOL - n),
